@@ -109,7 +109,7 @@ func (p *Parser) Parse(buf []byte, args ...any) (any, error) {
 	p.mi = 0
 	var err error
 	// Skip BOM if present.
-	if 3 < len(buf) && buf[0] == 0xEF {
+	if 2 < len(buf) && buf[0] == 0xEF {
 		if buf[1] == 0xBB && buf[2] == 0xBF {
 			err = p.parseBuffer(buf[3:], true)
 		} else {
@@ -180,7 +180,7 @@ func (p *Parser) ParseReader(r io.Reader, args ...any) (data any, err error) {
 	}
 	var skip int
 	// Skip BOM if present.
-	if 3 < len(buf) && buf[0] == 0xEF && buf[1] == 0xBB && buf[2] == 0xBF {
+	if 2 < len(buf) && buf[0] == 0xEF && buf[1] == 0xBB && buf[2] == 0xBF {
 		skip = 3
 	}
 	for {
